@@ -8,7 +8,10 @@ mergeOverlapCells), `Spec` = `XlModel.Grid.Spec` (a total map position → conte
 function update). All theorems quantify over all sheets / histories / positions; nothing
 is bounded. Payload tokens are opaque (conversion is checked by the direct oracle).
 -/
-import XlModel.Lemmas.Grid3
+import XlModel.Lemmas.Grid4
+import XlModel.Lemmas.GridPayload
+import XlModel.Lemmas.Bstr
+import XlModel.Props.C20
 
 namespace XlModel.Props.C03
 open XlModel XlModel.Grid
@@ -116,17 +119,17 @@ theorem step_refines (s : Sheet) (op : Op) :
       rw [hn]
       by_cases hid : s.nStyles ≤ id
       · simp only [hid, if_true, and_true]
-        simp only [abs]
+        simp only [Grid.abs]
         rw [makeContiguous_eq, cellAt_fold_fillAt, cellAt_prepare]
       · simp only [hid, if_false, and_true]
-        simp only [abs]
+        simp only [Grid.abs]
         rw [cellAt_styleLoop s.rows _ id p1 p2 p4]
   | getStyle c r =>
     simp only [step, Spec.step, getStyle]
     by_cases h0 : c = 0 ∨ r = 0
     · simp [h0]
     · simp only [h0, if_false, true_and]
-      simp only [abs, cellAt, h0, if_false, getCellAt]
+      simp only [Grid.abs, cellAt, h0, if_false, getCellAt]
       by_cases hr : r > s.rows.length
       · have hn : s.rows[r - 1]? = none := List.getElem?_eq_none (by omega)
         simp [hr, hn]; rfl
@@ -146,7 +149,7 @@ theorem step_refines (s : Sheet) (op : Op) :
     · simp [h0]
     · simp only [h0, if_false, and_true]
       obtain ⟨p1, p2, _, _⟩ := sortRect_pos c1 r1 c2 r2 h0
-      simp only [abs]
+      simp only [Grid.abs]
       rw [cellAt_mergeLoop s.rows _ p1 p2]
   | unmerge c1 r1 c2 r2 =>
     simp only [step, Spec.step, unmergeCell]
@@ -188,7 +191,7 @@ theorem get_refines (s : Sheet) (h : Dense s.rows) (c r : Nat) (hc : 1 ≤ c) (h
   rw [getCell_dense s h]
   have h0 : ¬ (c = 0 ∨ r = 0) := by omega
   have h1 : ¬ ((anchor s.merges c r).1 = 0 ∨ (anchor s.merges c r).2 = 0) := by omega
-  simp only [h0, h1, if_false, Spec.get, abs]
+  simp only [h0, h1, if_false, Spec.get, Grid.abs]
   rw [cellAt_eq_slot]
   simp only [h1, if_false]
   cases slot s.rows (anchor s.merges c r).1 (anchor s.merges c r).2 <;> rfl
@@ -306,6 +309,132 @@ theorem merges_disjoint_partial (s : Sheet) (hd : Disjoint s.merges) (c1 r1 c2 r
     · subst h1; have := hnew m2 h2 c r hc2; simp at hc1; rw [hc1] at this; cases this
     · subst h1; subst h2; rfl
 
+/-- clause "merged ranges reported are always pairwise disjoint", first half: the normalisation run by
+`GetMergeCells` / `UnmergeCell` (`mergeOverlapCells`: flatMergedCells with its pointer matrix and in-place
+rect mutation, then the selection pass) is the identity on a list of valid pairwise disjoint ranges —
+same entries, same order, same `Ref`, same cached rect. -/
+theorem normalise_id_on_disjoint (ms : List MObj) (h : PairwiseDisjoint ms) : mergeOverlapCells ms = ms :=
+  mergeOverlap_id ms h
+
+/-- the side condition of a history under which merges stay disjoint: every `MergeCell` rectangle meets
+no range merged at that moment -/
+def Safe : Sheet → List Op → Prop
+  | _, [] => True
+  | s, op :: ops =>
+    (match op with
+      | .merge c1 r1 c2 r2 => ∀ m ∈ s.merges, NoCommon m.rect (sortRect c1 r1 c2 r2)
+      | _ => True) ∧ Safe (step s op).1 ops
+
+theorem writeAt_merges (s : Sheet) (c r : Nat) (f : CellV → CellV) : (writeAt s c r f).1.merges = s.merges := by
+  unfold writeAt
+  split
+  · rfl
+  · simp only
+    split <;> rfl
+
+theorem pd_step (s : Sheet) (op : Op) (h : PairwiseDisjoint s.merges)
+    (hop : match op with
+      | .merge c1 r1 c2 r2 => ∀ m ∈ s.merges, NoCommon m.rect (sortRect c1 r1 c2 r2)
+      | _ => True) : PairwiseDisjoint (step s op).1.merges := by
+  cases op with
+  | set k c r p =>
+    simp only [step, setCell]
+    cases p with
+    | sst e =>
+      simp only
+      split
+      · simp only; rw [writeAt_merges]; exact h
+      · exact h
+    | tv t v => simp only; rw [writeAt_merges]; exact h
+    | num v => simp only; rw [writeAt_merges]; exact h
+    | inl x => simp only; rw [writeAt_merges]; exact h
+    | clr => simp only; rw [writeAt_merges]; exact h
+  | formula c r fm => simp only [step, setFormula]; rw [writeAt_merges]; exact h
+  | style c1 r1 c2 r2 id =>
+    simp only [step, setStyle]
+    split
+    · exact h
+    · split <;> exact h
+  | getStyle c r => simp only [step, getStyle]; split <;> exact h
+  | merge c1 r1 c2 r2 =>
+    simp only [step, mergeCell]
+    by_cases h0 : c1 = 0 ∨ r1 = 0 ∨ c2 = 0 ∨ r2 = 0
+    · simp [h0]; exact h
+    · simp only [h0, if_false]
+      obtain ⟨_, _, v1, v2⟩ := sortRect_pos c1 r1 c2 r2 h0
+      obtain ⟨hpw, hv⟩ := h
+      constructor
+      · apply List.pairwise_append.mpr
+        refine ⟨hpw, by simp, ?_⟩
+        intro a ha b hb
+        simp only [List.mem_singleton] at hb
+        subst hb
+        exact hop a ha
+      · intro m hm
+        rcases List.mem_append.mp hm with hm | hm
+        · exact hv m hm
+        · simp only [List.mem_singleton] at hm
+          subst hm; exact ⟨v1, v2⟩
+  | unmerge c1 r1 c2 r2 =>
+    simp only [step, unmergeCell]
+    split
+    · exact h
+    · split
+      · exact h
+      · rw [mergeOverlap_id _ h]
+        exact ⟨h.1.filter _, fun m hm => h.2 m (List.mem_filter.mp hm).1⟩
+  | getMerges =>
+    simp only [step, getMerges]
+    split
+    · exact h
+    · rw [mergeOverlap_id _ h]; exact h
+
+/-- clause "merged ranges reported are always pairwise disjoint", as strong as the code allows for
+non-overlapping input: along ANY history (cell writes, styles, merges, unmerges, normalisations, in any
+order) in which no `MergeCell` rectangle meets a range merged at that moment, the merge list stays a
+list of valid pairwise disjoint ranges, and each normalisation returns it unchanged. -/
+theorem merges_disjoint_of_safe (ops : List Op) (s : Sheet) (h : PairwiseDisjoint s.merges) (hs : Safe s ops) :
+    PairwiseDisjoint (run s ops).merges := by
+  induction ops generalizing s with
+  | nil => exact h
+  | cons o os ih =>
+    obtain ⟨h1, h2⟩ := hs
+    simp only [run, List.foldl_cons]
+    exact ih (step s o).1 (pd_step s o h h1) h2
+
+/-- what `GetMergeCells` reports after a safe history is the merge list itself -/
+theorem reported_after_safe (ops : List Op) (s : Sheet) (h : PairwiseDisjoint s.merges) (hs : Safe s ops) :
+    (step (run s ops) .getMerges).1.merges = (run s ops).merges := by
+  have hp := merges_disjoint_of_safe ops s h hs
+  simp only [step, getMerges]
+  split
+  · rfl
+  · exact mergeOverlap_id _ hp
+
+/-- clause "pairwise disjoint", specification side: the normal form `normSpec` (absorb what the new
+rectangle meets into the common bounding box; `none` as soon as a box reaches a range the rectangle itself
+did not meet) is pairwise disjoint whenever it exists. The driver checks on every `GetMergeCells` of every
+transcript that the one-pass code returns exactly this normal form whenever `normSpec ≠ none`; in Lean the
+equality is proved for the overlap-free case (`normalise_id_on_disjoint`) and decided on examples below. -/
+theorem normal_form_disjoint (rs l : List Rect) (h : normSpec rs = some l) :
+    l.Pairwise (fun a b => NoCommon a b) := normSpec_pairwise rs l h
+
+/-- both known failures of the one-pass normalisation are hazards in the sense of `normSpec`: the bounding
+box of an overlapping pair reaches an earlier range that the new rectangle did not meet -/
+theorem findings_are_hazards :
+    normSpec [⟨3, 1, 3, 3⟩, ⟨1, 3, 1, 4⟩, ⟨1, 4, 4, 4⟩] = none ∧
+    normSpec [⟨1, 1, 3, 3⟩, ⟨4, 2, 5, 4⟩, ⟨2, 4, 4, 5⟩] = none := by
+  constructor <;> decide +kernel
+
+/-- hazard-free overlapping inputs (corner overlap, cross, containment, a chain that grows twice, a box that
+absorbs two earlier ranges): the one-pass code returns the normal form -/
+theorem one_pass_exact_examples :
+    ∀ rs ∈ ([[⟨2, 2, 3, 3⟩, ⟨3, 3, 5, 5⟩], [⟨2, 2, 4, 2⟩, ⟨3, 1, 3, 3⟩], [⟨1, 1, 5, 5⟩, ⟨2, 2, 3, 3⟩],
+        [⟨2, 2, 3, 3⟩, ⟨3, 3, 5, 5⟩, ⟨5, 5, 6, 6⟩], [⟨1, 1, 2, 2⟩, ⟨4, 1, 5, 2⟩, ⟨2, 2, 4, 3⟩, ⟨7, 7, 8, 8⟩]] : List (List Rect)),
+      (normSpec rs).isSome = true ∧
+      some ((mergeOverlapCells (rs.map fun q => ⟨q, q⟩)).map (·.rect)) = normSpec rs := by
+  decide +kernel
+
 def rA (c1 r1 c2 r2 : Nat) : MObj := ⟨⟨c1, r1, c2, r2⟩, ⟨c1, r1, c2, r2⟩⟩
 
 /-- FINDING (negation of the full statement "reported ranges are always pairwise disjoint"):
@@ -404,6 +533,125 @@ theorem intern_denotes (sst : List Tok) (e : Tok) : (intern sst e).1[(intern sst
     obtain ⟨hlt, heq, _⟩ := this
     rw [List.getElem?_eq_getElem hlt, heq]
   | none => simp only; rw [List.getElem?_append]; simp
+
+/-! ## typed payloads (conversion of the value setters) -/
+
+/-- read-back of any non-string payload: the getter returns the setter's effect on the anchor cell -/
+theorem write_readback (s : Sheet) (h : Dense s.rows) (k : Setter) (c r : Nat) (p : Payload)
+    (hp : ∀ e, p ≠ .sst e) (hc : 1 ≤ c) (hr : 1 ≤ r)
+    (ha : 1 ≤ (anchor s.merges c r).1 ∧ 1 ≤ (anchor s.merges c r).2) :
+    observed (getCell (step s (.set k c r p)).1 c r) = writeCell k p (Spec.get (abs s) c r) := by
+  have hstep : step s (.set k c r p) = writeAt s c r (writeCell k p) := by
+    cases p <;> first | rfl | exact absurd rfl (hp _)
+  have hspec : Spec.step (abs s) (.set k c r p) = Spec.writeAt (abs s) c r (writeCell k p) := by
+    cases p <;> first | rfl | exact absurd rfl (hp _)
+  have hm : (step s (.set k c r p)).1.merges = s.merges := by rw [hstep, writeAt_merges]
+  have hd := dense_step s (.set k c r p) h
+  rw [get_refines _ hd c r hc hr (by rw [hm]; exact ha), (step_refines s (.set k c r p)).1, hspec]
+  simp only [Spec.writeAt, Spec.get]
+  have h0 : ¬ (c = 0 ∨ r = 0) := by omega
+  have hmm : (abs s).merges = s.merges := rfl
+  have h1 : ¬ ((anchor (abs s).merges c r).1 = 0 ∨ (anchor (abs s).merges c r).2 = 0) := by rw [hmm]; omega
+  simp only [h0, h1, if_false, Spec.upd]
+  simp
+
+/-- clause "integers exactly": after `SetCellInt(cell, i)` (any int64, any history before, any merged
+ranges) the cell reads back with empty type tag and the decimal text of `i`, and that text denotes `i` -/
+theorem int_exact (s : Sheet) (h : Dense s.rows) (i : Int) (c r : Nat) (hc : 1 ≤ c) (hr : 1 ≤ r)
+    (ha : 1 ≤ (anchor s.merges c r).1 ∧ 1 ≤ (anchor s.merges c r).2) :
+    (observed (getCell (step s ((Value.int i).op c r)).1 c r)).t = "" ∧
+    (observed (getCell (step s ((Value.int i).op c r)).1 c r)).v = hex (Ref.itoaInt i) ∧
+    (observed (getCell (step s ((Value.int i).op c r)).1 c r)).f = none ∧
+    decInt (Ref.itoaInt i) = some i := by
+  have := last_writer_wins s h .int c r "" (hex (Ref.itoaInt i)) hc hr ha
+  refine ⟨this.2.1, this.2.2, ?_, decInt_itoaInt i⟩
+  show (observed (getCell (step s (.set .int c r (.tv "" (hex (Ref.itoaInt i))))).1 c r)).f = none
+  rw [this.1]; exact write_clears_formula _ _ _
+
+/-- the same for `SetCellUint` -/
+theorem uint_exact (s : Sheet) (h : Dense s.rows) (n : Nat) (c r : Nat) (hc : 1 ≤ c) (hr : 1 ≤ r)
+    (ha : 1 ≤ (anchor s.merges c r).1 ∧ 1 ≤ (anchor s.merges c r).2) :
+    (observed (getCell (step s ((Value.uint n).op c r)).1 c r)).t = "" ∧
+    (observed (getCell (step s ((Value.uint n).op c r)).1 c r)).v = hex (Ref.itoa n) ∧
+    decInt (Ref.itoa n) = some (n : Int) := by
+  have := last_writer_wins s h .uint c r "" (hex (Ref.itoa n)) hc hr ha
+  exact ⟨this.2.1, this.2.2, decInt_itoa n⟩
+
+/-- clause "booleans": `SetCellBool` stores type `b` (which `GetCellType` maps to CellTypeBool) and "1"/"0" -/
+theorem bool_exact (s : Sheet) (h : Dense s.rows) (b : Bool) (c r : Nat) (hc : 1 ≤ c) (hr : 1 ≤ r)
+    (ha : 1 ≤ (anchor s.merges c r).1 ∧ 1 ≤ (anchor s.merges c r).2) :
+    (observed (getCell (step s ((Value.bool b).op c r)).1 c r)).t = Facts.C03.boolTag ∧
+    (observed (getCell (step s ((Value.bool b).op c r)).1 c r)).v = hex [if b then '1' else '0'] := by
+  have := last_writer_wins s h .bool c r Facts.C03.boolTag (hex [if b then '1' else '0']) hc hr ha
+  exact ⟨this.2.1, this.2.2⟩
+
+/-- clause "nil clearing the value": after `SetCellValue(cell, nil)` the cell reads back with no type,
+no value, no inline string and no formula; its style is what it was -/
+theorem nil_clears (s : Sheet) (h : Dense s.rows) (c r : Nat) (hc : 1 ≤ c) (hr : 1 ≤ r)
+    (ha : 1 ≤ (anchor s.merges c r).1 ∧ 1 ≤ (anchor s.merges c r).2) :
+    observed (getCell (step s (Value.nil.op c r)).1 c r) =
+      { (Spec.get (abs s) c r) with t := "", v := "", is := none, f := none } := by
+  have := write_readback s h .dflt c r .clr (fun e he => by cases he) hc hr ha
+  show observed (getCell (step s (.set .dflt c r .clr)).1 c r) = _
+  rw [this]
+  have h1 : Setter.dflt.removesFormula = true := value_setters_remove_formula _
+  simp only [writeCell, Payload.store, h1, if_true]
+  split <;> rfl
+
+/-- clause "strings verbatim up to 32767 characters": after `SetCellStr(cell, str)` the cell reads back
+as a shared-string cell whose index denotes, in the (append-only, `sst_stable`) table, the item holding
+C01's `storedText str` — the escaped text of `str` truncated to `TotalCellChars` runes — and reading
+that item back (`xlsxSI.String`) yields exactly `str` truncated to the limit (C01 `setstr_getstr`,
+via `bstr_roundtrip`). -/
+theorem str_verbatim (s : Sheet) (h : Dense s.rows) (str : List Char) (c r : Nat) (hc : 1 ≤ c) (hr : 1 ≤ r)
+    (ha : 1 ≤ (anchor s.merges c r).1 ∧ 1 ≤ (anchor s.merges c r).2) :
+    let s' := (step s ((Value.str str).op c r)).1
+    (observed (getCell s' c r)).t = Facts.C03.sstTag ∧
+    (observed (getCell s' c r)).v = idxTok (intern s.sst (strTok str)).2 ∧
+    s'.sst[(intern s.sst (strTok str)).2]? = some (strTok str) ∧
+    Bstr.siString (Bstr.storedText str) = Bstr.truncate str := by
+  have hlw := last_writer_wins s h .str c r Facts.C03.sstTag (idxTok (intern s.sst (strTok str)).2) hc hr ha
+  have hok : (writeAt s c r (writeCell .str (.tv Facts.C03.sstTag (idxTok (intern s.sst (strTok str)).2)))).2 = .ok := by
+    unfold writeAt
+    have h0 : ¬ (c = 0 ∨ r = 0) := by omega
+    have h1 : ¬ ((anchor s.merges c r).1 = 0 ∨ (anchor s.merges c r).2 = 0) := by omega
+    simp [h0, h1]
+  have hs' : (step s ((Value.str str).op c r)).1 =
+      { (writeAt s c r (writeCell .str (.tv Facts.C03.sstTag (idxTok (intern s.sst (strTok str)).2)))).1 with
+        sst := (intern s.sst (strTok str)).1 } := by
+    simp only [Value.op, Value.write, step, setCell, hok, if_true]
+  have hget : getCell (step s ((Value.str str).op c r)).1 c r =
+      getCell (step s (.set .str c r (.tv Facts.C03.sstTag (idxTok (intern s.sst (strTok str)).2)))).1 c r := by
+    rw [hs']; rfl
+  simp only
+  rw [hget]
+  refine ⟨hlw.2.1, hlw.2.2, ?_, ?_⟩
+  · rw [hs']; exact intern_denotes s.sst (strTok str)
+  · -- C01's `setstr_getstr`, re-derived from `unmarshal_marshal` (= `bstr_roundtrip`): Props/C01 cannot be
+    -- imported here because its SaveGrid model declares the same namespace names as XlModel.Grid
+    have h1 : Facts.C01.sharedStringStoresEscaped = true := rfl
+    have h2 : Facts.C01.trimCellValueMarshals = true := rfl
+    simp only [Bstr.storedText, Bstr.trimCellValue, h1, h2, if_true, Bstr.siString, Bstr.truncate_idem,
+      Bstr.marshal_isEmpty, Bstr.unmarshal_marshal]
+    cases h : Bstr.truncate str with
+    | nil => simp
+    | cons _ _ => simp
+
+/-! ## spellings -/
+
+/-- clause "cell names are case-insensitive": a spelling the decoder accepts, and the same spelling with
+its letters upper-cased (what `mergeCellsParser` does first, for setters and getters alike), denote the
+same coordinates (C20 `upper_same_cell`); so a write through one and a read through the other address the
+same model cell — the read returns the payload written. -/
+theorem case_insensitive (s : Sheet) (h : Dense s.rows) (name : List Char) (ci ri : Int)
+    (hn : Ref.cellNameToCoordinates name = .ok (ci, ri)) (k : Setter) (t v : Tok)
+    (hc : 1 ≤ ci.toNat) (hr : 1 ≤ ri.toNat)
+    (ha : 1 ≤ (anchor s.merges ci.toNat ri.toNat).1 ∧ 1 ≤ (anchor s.merges ci.toNat ri.toNat).2) :
+    Ref.cellNameToCoordinates (name.map Ref.toUpper) = .ok (ci, ri) ∧
+    Ref.getterFinds name = some true ∧
+    (observed (getCell (step s (.set k ci.toNat ri.toNat (.tv t v))).1 ci.toNat ri.toNat)).v = v :=
+  ⟨XlModel.Props.C20.upper_same_cell name ci ri hn, XlModel.Props.C20.spellings_same_cell name ci ri hn,
+   (last_writer_wins s h k ci.toNat ri.toNat t v hc hr ha).2.2⟩
 
 /-! ## non-vacuity -/
 
